@@ -180,6 +180,53 @@ func c16Gen(rng *rand.Rand, id int) c16Program {
 	return p
 }
 
+// c16Directed are fixed programs for the shapes the statement names explicitly; they run before the generated ones.
+func c16Directed() []c16Program {
+	st := func(op string, a ...string) c16Step {
+		s := c16Step{Op: op}
+		if op == "bget" {
+			s.Keys = a
+			return s
+		}
+		if len(a) > 0 {
+			s.Key = a[0]
+		}
+		if len(a) > 1 {
+			s.Val = a[1]
+		}
+		return s
+	}
+	fl := func(hold, fail bool) c16Step { return c16Step{Op: "flush", Force: true, Hold: hold, Fail: fail} }
+	closing := []c16Step{fl(false, false), st("flushwait"), st("get", "a"), st("get", "b")}
+	progs := [][]c16Step{
+		// 1: a write made in a stage, cached by BatchGet, then cleaned up
+		{st("stage"), st("set", "a", "d1.1"), st("bget", "a"), st("scleanup"), st("get", "a"), st("bget", "a")},
+		// 2: a flushed value hidden by a staged deletion that is cached and then cleaned up
+		{st("set", "a", "d2.1"), fl(false, false), st("flushwait"), st("stage"), st("del", "a"), st("bget", "a", "b"), st("scleanup"), st("get", "a")},
+		// 3: reads while the flush is running, overwrite, second flush waits for the first
+		{st("set", "a", "d3.1"), fl(true, false), st("get", "a"), st("bget", "a", "b"), st("set", "a", "d3.2"), st("get", "a"), fl(true, false), st("get", "a"), st("flushwait"), st("get", "a")},
+		// 4: a flushed deletion hides at the store level
+		{st("set", "a", "d4.1"), fl(false, false), st("del", "a"), fl(false, false), st("flushwait"), st("get", "a"), st("bget", "a")},
+		// 5: a value cached before a later write, the key then leaves both buffers
+		{st("set", "a", "d5.1"), st("bget", "a"), fl(false, false), st("set", "a", "d5.2"), fl(false, false), st("flushwait"), st("get", "a")},
+		// 6: failed flush reported by FlushWait
+		{st("set", "a", "d6.1"), fl(false, true), st("get", "a"), st("flushwait")},
+		// 7: failed flush (still running when the next write arrives) reported by the next Flush
+		{st("set", "a", "d7.1"), fl(true, true), st("set", "b", "d7.2"), st("get", "a"), fl(false, false), st("flushwait")},
+		// 8: threshold-driven flush while the previous one is running and the buffer is over the force threshold
+		{st("set", "a", "d8.1"), fl(true, false), st("set", "b", "d8.2"), {Op: "flush"}, st("get", "a"), st("get", "b"), st("flushwait")},
+	}
+	var out []c16Program
+	for i, steps := range progs {
+		p := c16Program{MinKeys: 1, MinSize: 0, ForceSize: 1 << 40, Steps: append(steps, closing...)}
+		if i == 7 {
+			p.ForceSize = 1
+		}
+		out = append(out, p)
+	}
+	return out
+}
+
 // ---------------------------------------------------------------- model
 
 // c16Val is a write: a value or a deletion.
@@ -341,6 +388,7 @@ func (e *c16Env) flushFunc(gen uint64, db *MemDB) error {
 type c16Result struct {
 	violations []c16Viol
 	inconc     string
+	hang       bool
 	// observations
 	flushes, forced, threshold, held, failed, errReported int
 	releasedByWait, releasedByStep                          int
@@ -434,10 +482,6 @@ func c16Run(p c16Program) (res *c16Result) {
 	// blocking runs a call that may wait for the flush in flight; a held flush is released when the call
 	// does not return by itself.
 	blocking := func(call func()) bool {
-		if cur == nil || !cur.hold || cur.released {
-			call()
-			return true
-		}
 		done := make(chan struct{})
 		var pv any
 		go func() {
@@ -445,15 +489,29 @@ func c16Run(p c16Program) (res *c16Result) {
 			defer func() { pv = recover() }()
 			call()
 		}()
-		select {
-		case <-done:
-		case <-time.After(c16Grace):
-			release(cur)
-			res.releasedByWait++
+		if cur != nil && cur.hold && !cur.released {
 			select {
 			case <-done:
-			case <-time.After(20 * time.Second):
-				res.inconc = "Flush/FlushWait did not return after the flush in flight was released (watchdog)"
+			case <-time.After(c16Grace):
+				release(cur)
+				res.releasedByWait++
+			}
+		}
+		select {
+		case <-done:
+		case <-time.After(3 * time.Second):
+			// Bounded progress, decided on a logical condition: every invocation of the flush function has
+			// returned (none is running, none is held), so nothing can wake the call up any more.  The
+			// watchdog only bounds how long we look; it is repeated with a ten-fold bound before it counts.
+			select {
+			case <-done:
+			case <-time.After(30 * time.Second):
+				if env.active.Load() == 0 {
+					res.hang = true
+					viol(stepNo, "hang:buffer-waits-for-a-flush-that-is-not-running", "%s has not returned after 33 s; no invocation of the flush function is running or held", p.Steps[stepNo].String())
+				} else {
+					res.inconc = "Flush/FlushWait did not return although the flush in flight was released (watchdog)"
+				}
 				return false
 			}
 		}
@@ -764,9 +822,14 @@ func c16CheckRead(want c16Val, tier string, got []byte, err error, isGet bool) s
 			return fmt.Sprintf("returned %q for a key the transaction never wrote", c16short(string(got)))
 		}
 	case want.del:
-		// a deletion hides older values: "not found" or the empty tombstone value
+		// A deletion hides older values at every level.  At this interface that means the empty tombstone
+		// value: "not found" would tell the union store / batch getter above that the transaction has no write
+		// of the key, and they would go on to the snapshot and return the value the deletion has to hide.
 		if err == nil && len(got) != 0 {
 			return fmt.Sprintf("returned %q although the latest write of the key is a deletion", c16short(string(got)))
+		}
+		if err != nil {
+			return "reports the key as not written by the transaction although its latest write is a deletion (the caller falls through to the snapshot)"
 		}
 	default:
 		if err != nil {
@@ -877,14 +940,28 @@ func TestVerifC16PipelinedMemDB(t *testing.T) {
 	defer failpoint.Disable("tikvclient/pipelinedMemDBForceFlushSizeThreshold")
 	rng := vrep.Rand("c16-memdb")
 	n := vrep.Pick(4000, 60000)
-	for id := 0; id < n; id++ {
-		p := c16Gen(rng, id)
+	hangs := 0
+	directed := c16Directed()
+	for id := -len(directed); id < n && hangs < 2; id++ {
+		var p c16Program
+		if id < 0 {
+			p = directed[-id-1]
+			r.Count("directed_programs", 1)
+		} else {
+			p = c16Gen(rng, id)
+		}
 		res := c16Run(p)
 		r.Eval(1)
 		r.Count("programs", 1)
 		if res.inconc != "" {
 			r.Inconc("program %d: %s", id, res.inconc)
+			if hangs++; hangs >= 2 {
+				break
+			}
 			continue
+		}
+		if res.hang {
+			hangs++
 		}
 		r.Count("flushes", res.flushes)
 		r.Count("flushes_forced", res.forced)
